@@ -879,7 +879,7 @@ func TestC10_HookLifecycle(t *testing.T) {
 	if t.Failed() {
 		return
 	}
-	ev.Rapid("hook-lifecycle", ev.Pick(10, 150))
+	ev.Rapid("hook-lifecycle", ev.Pick(8, 150))
 	rapid.Check(t, func(rt *rapid.T) {
 		p := drawLCCase(rt)
 		c.Case()
